@@ -166,7 +166,8 @@ Record node_post (a : arena acont) (z : list zframe) (p1 : nat) (a' : arena acon
   np_rep : crep a' (zpar z) T';
   np_idx : forall k, In k (cidx T') -> k = p1 \/ aget a k = None;
   np_nodup : NoDup (cidx T');
-  np_zero : aget a' 0%nat <> None }.
+  np_zero : aget a' 0%nat <> None;
+  np_top : z = [] -> cslot T' = Some p1 }.
 
 Definition zsib (z : list zframe) : option nat := match z with fr :: _ => zf_sib fr | [] => None end.
 
@@ -198,7 +199,7 @@ Lemma post_single a z p1 p' st dir key am a' Tc :
   node_post am (mkZ p1 p' st dir None :: z) key a' Tc ->
   node_post a z p1 a' (CN p1 false p' st (if dir then CU else Tc) (if dir then Tc else CU)).
 Proof.
-  intros Hk Hp Hkp Ham Hamp N. destruct N as [Nf No [r [Nr1 [Nr2 Nr3]]] Nrep Ni Nd Nz].
+  intros Hk Hp Hkp Ham Hamp N. destruct N as [Nf No [r [Nr1 [Nr2 Nr3]]] Nrep Ni Nd Nz Nt].
   cbn [zrep zf_idx zf_f zf_st zf_dir zf_sib] in Nr2. destruct Nr2 as [Hcell [_ Hz']].
   assert (Hnk : forall k, aget a k <> None -> k <> key) by (intros k H E; subst k; contradiction).
   assert (Hidx : forall k, In k (cidx Tc) -> k = p1 \/ aget a k = None).
@@ -216,6 +217,7 @@ Proof.
   - intros k Hin. destruct dir; cbn [cidx app] in Hin; rewrite ?app_nil_r in Hin; (destruct Hin as [<-|Hin]; [left; reflexivity | apply Hidx; exact Hin]).
   - destruct dir; cbn [cidx app]; rewrite ?app_nil_r; (constructor; [exact Hp1 | exact Nd]).
   - exact Nz.
+  - intros _. reflexivity.
 Qed.
 
 (* both children: label 1 was processed first (with the pending child at label 0 as its sibling), then label 0 *)
@@ -228,8 +230,8 @@ Lemma post_both a z p1 p' st key0 key1 a2 a3 a4 T0 T1 :
   node_post a z p1 a4 (CN p1 false p' st T0 T1).
 Proof.
   intros Hk0 Hk1 H01 H0p H1p Hp Ha2 Ha2k0 Ha2p N1 N0.
-  destruct N1 as [N1f N1o [r1 [N1r1 [N1r2 N1r3]]] N1rep N1i N1d N1z].
-  destruct N0 as [N0f N0o [r0 [N0r1 [N0r2 N0r3]]] N0rep N0i N0d N0z].
+  destruct N1 as [N1f N1o [r1 [N1r1 [N1r2 N1r3]]] N1rep N1i N1d N1z N1t].
+  destruct N0 as [N0f N0o [r0 [N0r1 [N0r2 N0r3]]] N0rep N0i N0d N0z N0t].
   cbn [zrep zf_idx zf_f zf_st zf_dir zf_sib zpar] in *.
   destruct N0r2 as [Hcell [_ Hz']].
   assert (Hnk : forall k, aget a k <> None -> k <> key0 /\ k <> key1).
@@ -265,6 +267,7 @@ Proof.
       assert (Hs3 : aget a3 k <> None) by (eapply crep_occ; eauto).
       destruct (N0i k Hin0) as [E|E]; [|contradiction]. subst k. exact (proj1 (Hi1 _ Hin1) eq_refl).
   - exact N0z.
+  - intros _. reflexivity.
 Qed.
 
 (* the kept child took the node's place (merge_child_with_parent) *)
@@ -275,7 +278,7 @@ Lemma post_merge a z p1 key a5 a6 Tc g :
   node_post a5 z key a6 Tc ->
   node_post a z p1 a6 Tc.
 Proof.
-  intros Hg Hk Hkp Hgp Ha5g Ha5 N. destruct N as [Nf No [r [Nr1 [Nr2 Nr3]]] Nrep Ni Nd Nz].
+  intros Hg Hk Hkp Hgp Ha5g Ha5 N. destruct N as [Nf No [r [Nr1 [Nr2 Nr3]]] Nrep Ni Nd Nz Nt].
   assert (Hnk : forall k, aget a k <> None -> k <> key) by (intros k H E; subst k; contradiction).
   assert (Hocc5 : forall k, k <> p1 -> aget a k <> None -> aget a5 k <> None).
   { intros k H1 H3. destruct (Nat.eq_dec k g) as [->|Hkg]; [exact Ha5g|]. rewrite Ha5; auto. }
@@ -291,6 +294,7 @@ Proof.
   - intros k Hin. apply Hconv. apply Ni. exact Hin.
   - exact Nd.
   - exact Nz.
+  - intros E. rewrite E in Hg. discriminate.
 Qed.
 
 Lemma acp_loop_step alloc o tol pf K root s tf f L p1 rest a k :
@@ -538,7 +542,7 @@ Proof.
       destruct (graftp_idx o tol s tf l1 false Indet key1 new_idx q1 k2) as [Gk1 Gs1].
       rewrite Gk1 in Hloop1.
       destruct (graftp o tol s tf l1 false Indet new_idx q1 k2) as [c1 k3] eqn:Eg1. cbn [fst snd] in *.
-      assert (Np1' := Np1). destruct Np1' as [N1f N1o [r1 [N1r1 [N1r2 N1r3]]] N1rep N1i N1d N1z].
+      assert (Np1' := Np1). destruct Np1' as [N1f N1o [r1 [N1r1 [N1r2 N1r3]]] N1rep N1i N1d N1z N1t].
       set (fr0 := mkZ p1 p' st false (cslot T1)).
       assert (A5k0 : aget a5 key0 = Some (leafcell (node_val s tf l0) Indet (Some p1))).
       { rewrite N1f; [exact A3k0 | auto | cbn [zpar fr1 zf_idx]; congruence | rewrite A3k0; discriminate]. }
@@ -680,7 +684,7 @@ Proof.
                 = acp_loop alloc o tol pf 2 0 s tf fuel [(L, i)] a1 k).
     { destruct L; [congruence| |]; rewrite Hu; reflexivity. }
     rewrite E. replace fuel with (n + (fuel - n))%nat by lia. rewrite Hloop. apply acp_loop_nil. lia.
-  - destruct N as [Nf No [r [Nr1 [Nr2 Nr3]]] Nrep Ni Nd Nz].
+  - destruct N as [Nf No [r [Nr1 [Nr2 Nr3]]] Nrep Ni Nd Nz Nt].
     assert (Hconv : forall k0, k0 = i \/ aget a1 k0 = None -> k0 = i \/ aget a k0 = None).
     { intros k0 [->|E]; [left; reflexivity|]. destruct (Nat.eq_dec k0 i) as [->|Hk]; [left; reflexivity|]. right.
       rewrite <- A1o by auto. exact E. }
